@@ -209,14 +209,27 @@ Proof.
       apply existsb_exists in E. destruct E as (y & Hy & Ey). apply Nat.eqb_eq in Ey. subst. contradiction.
 Qed.
 
-(* vectors of equal length *)
-Definition same_len (n : nat) (vs : list (list Q)) : Prop := Forall (fun v => length v = n) vs.
+(* the oracle's order on value vectors: a strict order in which "no vector" (invalid) is last *)
+Lemma row_better_asym v w : row_better v w = true -> row_better w v = false.
+Proof.
+  destruct v as [|a v], w as [|b w]; simpl; intros H; try discriminate; try reflexivity.
+  apply (lex_asym (a :: v) (b :: w)), H.
+Qed.
 
-(* insertion sort: a permutation, best (lexicographically smallest) first *)
+Lemma row_better_trans v w x : row_better v w = true -> row_better w x = true -> row_better v x = true.
+Proof.
+  destruct v as [|a v], w as [|b w], x as [|c x]; simpl; intros H1 H2; try discriminate; try reflexivity.
+  apply (lex_trans (a :: v) (b :: w) (c :: x)); assumption.
+Qed.
+
+Lemma row_better_invalid_last v : row_better [] v = false /\ (v <> [] -> row_better v [] = true).
+Proof. split; [reflexivity|]. destruct v; [intros H; contradiction|reflexivity]. Qed.
+
+(* insertion sort: a permutation, best first *)
 Lemma lex_insert_perm v l : Permutation (lex_insert v l) (v :: l).
 Proof.
   induction l as [|w l IH]; simpl; [apply Permutation_refl|].
-  destruct (lex_lt_b v w); [apply Permutation_refl|].
+  destruct (row_better v w); [apply Permutation_refl|].
   eapply perm_trans; [apply perm_skip, IH|apply perm_swap].
 Qed.
 
@@ -228,34 +241,27 @@ Qed.
 
 (* best first: no later vector is strictly better than an earlier one *)
 Definition best_first (l : list (list Q)) : Prop :=
-  StronglySorted (fun a b => lex_lt_b b a = false) l.
+  StronglySorted (fun a b => row_better b a = false) l.
 
-Lemma lex_insert_sorted n v l :
-  length v = n -> same_len n l -> best_first l -> best_first (lex_insert v l).
+Lemma lex_insert_sorted v l : best_first l -> best_first (lex_insert v l).
 Proof.
-  intros Lv Ll S. induction S as [|w l S IH F]; simpl.
+  intros S. induction S as [|w l S IH F]; simpl.
   - repeat constructor.
-  - inversion Ll as [|? ? Lw Ll']; subst.
-    destruct (lex_lt_b v w) eqn:E.
+  - destruct (row_better v w) eqn:E.
     + constructor; [constructor; assumption|]. constructor.
-      * apply lex_asym, E.
+      * apply row_better_asym, E.
       * rewrite Forall_forall in *. intros x Hx.
-        destruct (lex_lt_b x v) eqn:Ex; [|reflexivity]. exfalso.
-        assert (lex_lt_b x w = true) by (eapply lex_trans; eassumption).
+        destruct (row_better x v) eqn:Ex; [|reflexivity]. exfalso.
+        assert (row_better x w = true) by (eapply row_better_trans; eassumption).
         rewrite (F x Hx) in H. discriminate.
-    + constructor; [apply IH, Ll'|].
+    + constructor; [exact IH|].
       rewrite Forall_forall in *. intros x Hx.
       apply (Permutation_in _ (lex_insert_perm v l)) in Hx. destruct Hx as [<-|Hx]; [exact E|].
       apply F, Hx.
 Qed.
 
-Theorem lex_sort_sorted n l : same_len n l -> best_first (lex_sort l).
-Proof.
-  induction l as [|v l IH]; intros H; simpl; [constructor|].
-  inversion H as [|? ? Lv Ll]; subst. apply (lex_insert_sorted (length v)); [reflexivity| |apply IH, Ll].
-  unfold same_len. rewrite Forall_forall in *. intros x Hx.
-  apply Ll. apply (Permutation_in _ (lex_sort_perm l)), Hx.
-Qed.
+Theorem lex_sort_sorted l : best_first (lex_sort l).
+Proof. induction l as [|v l IH]; simpl; [constructor|]. apply lex_insert_sorted, IH. Qed.
 
 (* the brute-force Pareto filter keeps exactly the vectors no vector dominates *)
 Theorem nondominated_iff vs v :
